@@ -238,9 +238,18 @@ func streamMerge(scripts [][]sx.Step, closeAfter int, yield bool) Scenario {
 // perCallCtx: every Next call gets a context of its own that is cancelled as soon as the call has
 // returned (the usual `ctx, cancel := context.WithTimeout(...); defer cancel()` around one call).
 func streamMergeX(scripts [][]sx.Step, closeAfter int, yield, perCallCtx bool) Scenario {
+	return streamMergeY(scripts, closeAfter, yield, perCallCtx, false)
+}
+
+// expireFirst: the consumer's first calls use a context that another thread cancels at any time; a
+// call that gives up costs nothing: the consumer carries on with a live context.
+func streamMergeY(scripts [][]sx.Step, closeAfter int, yield, perCallCtx, expireFirst bool) Scenario {
 	name := fmt.Sprintf("streamMerge/inputs=%s/closeAfter=%d/yield=%v", scriptNames(scripts), closeAfter, yield)
 	if perCallCtx {
 		name += "/per-call-contexts"
+	}
+	if expireFirst {
+		name += "/first-context-expires"
 	}
 	return Scenario{name, func() {
 		var srcs []*sx.Src
@@ -269,13 +278,26 @@ func streamMergeX(scripts [][]sx.Step, closeAfter int, yield, perCallCtx bool) S
 		ctx := context.Background()
 		var got []int
 		var end error
+		var expiring context.Context
+		if expireFirst {
+			var cancelExp context.CancelFunc
+			expiring, cancelExp = context.WithCancel(ctx)
+			go cancelExp()
+		}
 		for closeAfter < 0 || len(got) < closeAfter {
 			cctx, cancel := ctx, func() {}
 			if perCallCtx {
 				cctx, cancel = context.WithCancel(ctx)
 			}
+			if expiring != nil {
+				cctx = expiring
+			}
 			v, err := m.Next(cctx)
 			cancel()
+			if err != nil && expiring != nil && err == context.Canceled && len(firstErrs) == 0 {
+				expiring = nil // that call gave up; nothing is lost by it
+				continue
+			}
 			if err != nil {
 				end = err
 				break
@@ -488,6 +510,8 @@ func All() []Scenario {
 		streamMergeX([][]sx.Step{vals(0, 2), vals(10, 1)}, -1, false, true),
 		streamMergeX([][]sx.Step{append(vals(0, 1), e)}, -1, false, true),
 		streamMergeMany(16, 1),
+		streamMergeY([][]sx.Step{vals(0, 2), vals(10, 1)}, -1, false, false, true),
+		streamMergeY([][]sx.Step{vals(0, 1), {}}, -1, true, false, true),
 		streamMerge([][]sx.Step{vals(0, 2), vals(10, 1)}, 0, false),
 		streamMerge([][]sx.Step{vals(0, 2), vals(10, 1)}, 1, true),
 		streamMerge([][]sx.Step{append(vals(0, 1), b), vals(10, 1)}, 2, false),
